@@ -408,6 +408,12 @@ func leaseRequest6(sc leaseScenario, o leaseOut, ph leasePhase, req, adv *dhcpv6
 	if req.MessageType != dhcpv6.MessageTypeRequest {
 		return "v6-request", "second datagram is not a REQUEST"
 	}
+	// REQUEST/REPLY are paired by a transaction id of their own: with the
+	// SOLICIT/ADVERTISE id a late answer to the SOLICIT would complete the REQUEST
+	// (a random draw coincides with probability 2^-24: the caller re-runs once)
+	if req.TransactionID == adv.TransactionID {
+		return "v6-request-xid", fmt.Sprintf("the REQUEST carries the ADVERTISE's transaction id %x", req.TransactionID[:])
+	}
 	if sc.mods == "[]" {
 		switch {
 		case !leaseSameOpt6(leaseOpt6(req, 1), leaseOpt6(adv, 1)):
@@ -563,6 +569,14 @@ func leaseOracle(r *Rng, n int, thorough bool, seeds []string) *OracleResult {
 			cls, what = leaseCheck6(sc, out)
 		} else {
 			cls, what = leaseCheck4(sc, out)
+		}
+		if cls == "v6-request-xid" {
+			// a coincidence of two random draws does not repeat
+			if c2, _ := leaseCheck6(sc, leaseRun(sc)); c2 != cls {
+				cls = ""
+			} else {
+				cls = "v6-request"
+			}
 		}
 		if cls != "" {
 			res.fail(Failure{Oracle: "c13", Input: line, What: what, Class: cls})
